@@ -170,6 +170,12 @@ func mkValue(kind string) any {
 		return [3]int{1, 2, 3}
 	case "slice-any":
 		return []any{1, "a", nil, []any{}, map[string]any{"x": 1}}
+	case "slice-any-long":
+		out := make([]any, 130)
+		for i := range out {
+			out[i] = i % 7
+		}
+		return out
 	case "slice-int":
 		return []int{1, 2}
 	case "slice-nil-typed":
